@@ -20,7 +20,6 @@ use std::collections::BTreeSet;
 use std::collections::VecDeque;
 use std::str::from_utf8;
 use std::str::from_utf8_unchecked;
-use std::str::FromStr;
 
 use crate::builder::ArrayBuilder;
 use crate::builder::ObjectBuilder;
@@ -1453,11 +1452,10 @@ pub fn is_object(value: &[u8]) -> bool {
 /// Convert `JSONB` value to `serde_json` Value
 pub fn to_serde_json(value: &[u8]) -> Result<serde_json::Value, Error> {
     if !is_jsonb(value) {
-        let json_str = std::str::from_utf8(value)?;
-        return match serde_json::Value::from_str(json_str) {
-            Ok(v) => Ok(v),
-            Err(_) => Err(Error::InvalidJson),
-        };
+        // parse the text with our own parser, so that the result is the same
+        // as for the encoded value of the text, e.g. the same rounded floats.
+        let val = parse_value(value).map_err(|_| Error::InvalidJson)?;
+        return containter_to_serde_json(&val.to_vec());
     }
 
     containter_to_serde_json(value)
@@ -1468,14 +1466,8 @@ pub fn to_serde_json_object(
     value: &[u8],
 ) -> Result<Option<serde_json::Map<String, serde_json::Value>>, Error> {
     if !is_jsonb(value) {
-        let json_str = std::str::from_utf8(value)?;
-        return match serde_json::Value::from_str(json_str) {
-            Ok(v) => match v {
-                serde_json::Value::Object(obj) => Ok(Some(obj.clone())),
-                _ => Ok(None),
-            },
-            Err(_) => Err(Error::InvalidJson),
-        };
+        let val = parse_value(value).map_err(|_| Error::InvalidJson)?;
+        return containter_to_serde_json_object(&val.to_vec());
     }
 
     containter_to_serde_json_object(value)
